@@ -87,10 +87,16 @@ def selftest():
     sem.selftest()
 
 
-def ast_problems(node, path='root'):
+def ast_problems(node, path='root', _seen=None):
     probs = []
     if node is None:
         return ['missing node at ' + path]
+    _seen = {} if _seen is None else _seen
+    if id(node) in _seen:
+        # "an expression tree": one Node object at two positions makes it a graph (an in-place rewrite of one
+        # occurrence would silently change the other)
+        return ['the Node object at %s also occurs at %s' % (path, _seen[id(node)])]
+    _seen[id(node)] = path
     data = node.data
     if isinstance(data, ASTOperation):
         if data == ASTOperation.NOT:
@@ -103,9 +109,9 @@ def ast_problems(node, path='root'):
             if node.left is None or node.right is None:
                 probs.append('%s at %s lacks an operand' % (data.value, path))
         if node.left is not None:
-            probs += ast_problems(node.left, path + '.l')
+            probs += ast_problems(node.left, path + '.l', _seen)
         if node.right is not None:
-            probs += ast_problems(node.right, path + '.r')
+            probs += ast_problems(node.right, path + '.r', _seen)
     else:
         if node.left is not None or node.right is not None:
             probs.append('term %r at %s has children' % (data, path))
